@@ -1,0 +1,8 @@
+//go:build !verif
+
+package packet
+
+func verifYield(string) {}
+
+// VerifYieldPoint is a no-op unless built with the "verif" tag.
+func VerifYieldPoint(string) {}
